@@ -95,6 +95,32 @@ theorem C18_read_ok_is_flagged (f : Fsm) (h : wfFsm small f = true) (k : Nat) (h
   exact this
 #assert_axioms C18_read_ok_is_flagged
 
+/-- `FsmReader::read` as it would be with the proposed minimal repair
+(notes/codec-proposed-fixes/C18-P7-truncated-image.diff): the flag is consulted before the binding
+ordinal is converted and again before `Ok` is returned -/
+def readImageChecked (bytes : List Nat) : ReadResult :=
+  match readImageFull bytes with
+  | (_, true) => .errCantRead
+  | (r, false) => r
+
+/-- with that check the read clause holds: every strict prefix is an error, the complete image is
+still read back -/
+theorem C18_read_checked (f : Fsm) (h : wfFsm small f = true) :
+    (∀ k, k < (imageOf f).length → (readImageChecked ((imageOf f).take k)).isErr = true) ∧
+    readImageChecked (imageOf f) = ReadResult.ok f := by
+  constructor
+  · intro k hk
+    have := C18_read_partial f h k hk
+    unfold readImageChecked
+    cases hr : readImageFull ((imageOf f).take k) with
+    | mk r e =>
+      rw [hr] at this
+      simp only at this
+      subst this
+      rfl
+  · simp [readImageChecked, readImageFull_image h]
+#assert_axioms C18_read_checked
+
 /-- the complete image, by contrast, is read without the flag -/
 theorem C18_read_complete (f : Fsm) (h : wfFsm small f = true) :
     readImageFull (imageOf f) = (ReadResult.ok f, false) := readImageFull_image h
